@@ -263,7 +263,8 @@ def plan_C01(tier, seed):
         Job("diff-rel", "rel", "c01", n, {"max_size": 3000}),
     ]
     if tier == "thorough":
-        jobs.append(Job("diff-miri", "miri-san", "c01", 224, {"max_size": 6}, nshards=16, crash_is_violation=True, wall_limit=3000))
+        jobs.append(Job("diff-miri", "miri-san", "c01", 224, {"max_size": 6, "light": 1}, nshards=16, crash_is_violation=True,
+                        wall_limit=3000))
     fl = dict(PARSER_FLOORS)
     fl.update({"parser:log": 100, "pairs": q(tier, 3_000_000, 150_000_000), "nontrivial_pairs": q(tier, 1_000_000, 50_000_000),
                "ref_accepted": 10_000, "ref_syntax_error": 10_000, "interrupted_reads": 100_000,
